@@ -225,6 +225,66 @@ Inductive cmd :=
 Section Exec.
 Variable E : env.
 
+(* one iteration of `for remove_oid in set([ent[side].oid, oid])` in _change_oid;
+   [rec] is the intercepted write `prior_ent[side].oid = None` *)
+Definition oid_step (rec : cmd -> state -> res state) (e : eid) (sd : bool) (r : option str) (s : state) : res state :=
+  match r with
+  | None => Ok s
+  | Some ro =>
+    match al_get ro (oids s sd) with
+    | None => Ok s
+    | Some pe =>
+      let s1 := st_oids s sd (al_del ro (oids s sd)) in
+      pn <- get_ent s1 pe ;;
+      let s2 := match s_path (gs pn sd) with
+                | Some pp => if tstr (Some pp) then slot_pop s1 sd pp (Some ro) else s1
+                | None => s1
+                end in
+      if Nat.eqb pe e then Ok s2 else rec (COid true pe sd None) s2
+    end
+  end.
+
+(* the body of `for sub, relative in self.get_kids(prior_path, side)` in _update_kids *)
+Definition kid_step (rec : cmd -> state -> res state) (sd : bool) (pp p : str) (sub : eid) (s : state) : res state :=
+  sn <- get_ent s sub ;;
+  match s_path (gs sn sd) with
+  | Some sp =>
+    if tstr (Some sp) then
+      match is_subpath (cvs E sd) pp sp true with
+      | Rel (c0 :: rel0) =>
+        let rel := c0 :: rel0 in
+        let np := join (cvs E sd) [p; rel] in
+        s1 <- (if oip E sd then
+                 match info E sd np with
+                 | Some o' => rec (COid true sub sd (Some o')) s
+                 | None => Ok s
+                 end
+               else Ok s) ;;
+        s2 <- rec (CPath true sub sd (Some np)) s1 ;;
+        sn2 <- get_ent s2 sub ;;
+        match s_spath (gs sn2 sd) with
+        | Some sy =>
+          if tstr (Some sy) then
+            match is_subpath (cvs E sd) pp sy false with
+            | Rel (c1 :: r1) =>
+              Ok (raw_side (dirty_add s2 sub) sub sd
+                    (fun y => w_spath y (Some (join (cvs E sd) [p; c1 :: r1]))))
+            | _ => Ok s2
+            end
+          else Ok s2
+        | None => Ok s2
+        end
+      | _ => Ok s
+      end
+    else Ok s
+  | None => Ok s
+  end.
+Fixpoint kids_loop (rec : cmd -> state -> res state) (sd : bool) (pp p : str) (l : list eid) (s : state) : res state :=
+  match l with
+  | [] => Ok s
+  | sub :: r => s' <- kid_step rec sd pp p sub s ;; kids_loop rec sd pp p r s'
+  end.
+
 Fixpoint exec (fuel : nat) (c : cmd) (s : state) {struct fuel} : res state :=
   match fuel with
   | O => Err ERecursion
@@ -256,45 +316,7 @@ Fixpoint exec (fuel : nat) (c : cmd) (s : state) {struct fuel} : res state :=
                            | Some pp =>
                              y <- get_all_ordered sc ;;
                              let '(order, s0) := y in
-                             (fix loop (l : list eid) (s : state) {struct l} : res state :=
-                                match l with
-                                | [] => Ok s
-                                | sub :: r =>
-                                  sn <- get_ent s sub ;;
-                                  s' <- match s_path (gs sn sd) with
-                                        | Some sp =>
-                                          if tstr (Some sp) then
-                                            match is_subpath (cvs E sd) pp sp true with
-                                            | Rel (c0 :: rel0) =>
-                                              let rel := c0 :: rel0 in
-                                              let np := join (cvs E sd) [p; rel] in
-                                              s1 <- (if oip E sd then
-                                                       match info E sd np with
-                                                       | Some o' => exec f (COid true sub sd (Some o')) s
-                                                       | None => Ok s
-                                                       end
-                                                     else Ok s) ;;
-                                              s2 <- exec f (CPath true sub sd (Some np)) s1 ;;
-                                              sn2 <- get_ent s2 sub ;;
-                                              match s_spath (gs sn2 sd) with
-                                              | Some sy =>
-                                                if tstr (Some sy) then
-                                                  match is_subpath (cvs E sd) pp sy false with
-                                                  | Rel (c1 :: r1) =>
-                                                    Ok (raw_side (dirty_add s2 sub) sub sd
-                                                          (fun y => w_spath y (Some (join (cvs E sd) [p; c1 :: r1]))))
-                                                  | _ => Ok s2
-                                                  end
-                                                else Ok s2
-                                              | None => Ok s2
-                                              end
-                                            | _ => Ok s
-                                            end
-                                          else Ok s
-                                        | None => Ok s
-                                        end ;;
-                                  loop r s'
-                                end) order s0
+                             kids_loop (exec f) sd pp p order s0
                            end
                          else Ok sc) ;;
                  (* new_priority = prioritize(side, path) = 0 *)
@@ -308,23 +330,7 @@ Fixpoint exec (fuel : nat) (c : cmd) (s : state) {struct fuel} : res state :=
     | COid fin e sd v =>
       en <- get_ent s e ;;
       let old := s_oid (gs en sd) in
-      (* one iteration of: for remove_oid in set([old, v]) *)
-      let step (r : option str) (s : state) : res state :=
-        match r with
-        | None => Ok s
-        | Some ro =>
-          match al_get ro (oids s sd) with
-          | None => Ok s
-          | Some pe =>
-            let s1 := st_oids s sd (al_del ro (oids s sd)) in
-            pn <- get_ent s1 pe ;;
-            let s2 := match s_path (gs pn sd) with
-                      | Some pp => if tstr (Some pp) then slot_pop s1 sd pp (Some ro) else s1
-                      | None => s1
-                      end in
-            if Nat.eqb pe e then Ok s2 else exec f (COid true pe sd None) s2
-          end
-        end in
+      let step := oid_step (exec f) e sd in
       s1 <- (if ostr_eqb old v then step old s
              else
                y <- pop_swap s ;;
